@@ -422,6 +422,9 @@ pub enum Op {
     CeFrom(u64),
     /// Accept every held Incoming of the server and stop holding
     AcceptHeld,
+    /// A short-header datagram of the given length for a connection ID nobody has, from a foreign
+    /// address, reaches the node's endpoint (it answers with a stateless reset if long enough)
+    Unroutable(usize, usize),
 }
 
 pub fn apply_op(p: &mut StdPair, op: &Op) {
@@ -449,6 +452,15 @@ pub fn apply_op(p: &mut StdPair, op: &Op) {
         }
         Op::MaxDatagrams(n) => {
             p.w.max_datagrams = *n;
+            return;
+        }
+        Op::Unroutable(n, len) => {
+            let mut d: Vec<u8> = (0..*len).map(|i| (i as u8).wrapping_mul(37).wrapping_add(11)).collect();
+            if let Some(b) = d.first_mut() {
+                *b = 0x40 | (*b & 0x3f);
+            }
+            let dst = p.w.nodes[*n].addr;
+            p.w.inject(crate::sim::addr(13), dst, d, Duration::from_micros(1));
             return;
         }
         Op::AcceptHeld => {
